@@ -1,4 +1,5 @@
-CONSTANTS MaxPos = 3
+CONSTANTS CursorOnDropped = FALSE
+          MaxPos = 3
           MaxN = 4
 INIT Init
 NEXT Next
